@@ -7,6 +7,7 @@
 // Grid: a rotating seventeenth of (every sequence of up to 3 left rows over a 6-row pool x every sequence of up to 3 right rows over a 6-row pool)
 // (keys duplicated on either side, absent on one side, NULL, integers next to 2^53), join on a TEXT key and on an INT key, ON written either way
 // round, 10 statement shapes (columns, *, WHERE on either side, DISTINCT, GROUP BY, OUTER JOIN with anti-join / WHERE / DISTINCT).
+// Also: two tables of the same shape and a literal self-join (plain name = queried row, qualified name = partner).
 include!("verif_grid_common.rs");
 include!("verif_grid_qcommon.rs");
 
@@ -108,6 +109,48 @@ fn verif_grid() {
         g.case(&format!("l{}-r{}-{}-{}-s{}", li, ri, if key == Key::Text { "text" } else { "int" }, if flipped { "flipped" } else { "straight" }, shape),
                move || check(&left, &right, key, flipped, shape));
     } }
+    // a table joined with a file of its own kind: t.column is the queried row, the joined side is addressed by the table name too,
+    // so the statement gives the join an own definition `peer` with the same columns (a self-join in all but name) and a
+    // literal self-join where only qualified names of the ONE table exist
+    for (i, outer) in [false, true].iter().enumerate() {
+        g.case(&format!("same-shape-tables-{}", i), move || {
+            let def = "CREATE TABLE emp(line = '^e=(\\\\w+) boss=(\\\\w*)$', line[1] => name TEXT, line[2] => boss TEXT); \
+                       CREATE TABLE peer(line = '^e=(\\\\w+) boss=(\\\\w*)$', line[1] => name TEXT, line[2] => boss TEXT);";
+            let lines = ["e=ann boss=", "e=bob boss=ann", "e=cy boss=ann", "e=dee boss=zed"];
+            let file = write_temp("joined", &join_lines(&lines));
+            let query = format!("SELECT emp.name, peer.name, peer.boss FROM emp {} JOIN peer::'{}' ON emp.boss = peer.name", if *outer { "OUTER" } else { "INNER" }, file.display());
+            let r = q(def, &query, &lines);
+            let _ = std::fs::remove_file(&file);
+            let mut want = vec![];
+            if *outer { want.push(r#"{"emp.name":"ann","peer.name":null,"peer.boss":null}"#.to_owned()); }
+            want.push(r#"{"emp.name":"bob","peer.name":"ann","peer.boss":""}"#.to_owned());
+            want.push(r#"{"emp.name":"cy","peer.name":"ann","peer.boss":""}"#.to_owned());
+            if *outer { want.push(r#"{"emp.name":"dee","peer.name":null,"peer.boss":null}"#.to_owned()); }
+            match r { Outcome::Lines(l, _) => if l == want { Ok(()) } else { Err(format!("{} over {:?} joined with the same lines printed {:?}, expected {:?}", query, lines, l, want)) }, other => Err(format!("{}: {:?}", query, other)) }
+        });
+        g.case(&format!("self-join-{}", i), move || {
+            let def = "CREATE TABLE emp(line = '^e=(\\\\w+) boss=(\\\\w*)$', line[1] => name TEXT, line[2] => boss TEXT);";
+            let lines = ["e=ann boss=", "e=bob boss=ann", "e=cy boss=ann", "e=dee boss=zed"];
+            let file = write_temp("joined", &join_lines(&lines));
+            // every row that has a boss in the file: an INNER self-join keeps bob and cy, an OUTER one pads ann and dee
+            let query = format!("SELECT COUNT(*) AS n FROM emp INNER JOIN emp::'{}' ON emp.boss = emp.name", file.display());
+            let query2 = format!("SELECT name FROM emp {} JOIN emp::'{}' ON emp.boss = emp.name", if *outer { "OUTER" } else { "INNER" }, file.display());
+            // the joined side of a self-join is addressable by the qualified name only (every plain name clashes)
+            let query3 = format!("SELECT name, emp.name, emp.boss FROM emp INNER JOIN emp::'{}' ON emp.boss = emp.name", file.display());
+            let (r, r2, r3) = (q(def, &query, &lines), q(def, &query2, &lines), q(def, &query3, &lines));
+            let _ = std::fs::remove_file(&file);
+            if let Outcome::Lines(l3, _) = &r3 {
+                let want3 = vec![r#"{"name":"bob","emp.name":"ann","emp.boss":""}"#.to_owned(), r#"{"name":"cy","emp.name":"ann","emp.boss":""}"#.to_owned()];
+                if *l3 != want3 { return Err(format!("{} over {:?} printed {:?}; the plain name is the queried row, the qualified name the partner: {:?}", query3, lines, l3, want3)); }
+            }
+            match (r, r2) {
+                (Outcome::Error(_), _) | (_, Outcome::Error(_)) => Ok(()),   // a self-join may be refused; it must not give a wrong table
+                (Outcome::Lines(l, _), Outcome::Lines(l2, _)) => { let rows = if *outer { 4 } else { 2 };
+                    if l == vec![r#"{"n":2}"#.to_owned()] && l2.len() == rows { Ok(()) } else { Err(format!("self-join of emp on boss = name over {:?}: COUNT(*) printed {:?} (2 pairs exist), {} printed {} rows (expected {})", lines, l, query2, l2.len(), rows)) } }
+                other => Err(format!("{:?}", other)),
+            }
+        });
+    }
     // a missing join column or joined file is an error, never an empty result
     g.case("missing-file", || match q(DEF, "SELECT user FROM t INNER JOIN hosts::'/nonexistent/verif_grid_no_such_file' ON t.host = hosts.name", &["u=ann h=alpha c=1"]) {
         Outcome::Error(_) => Ok(()), other => Err(format!("a missing joined file gives {:?}", other)) });
